@@ -393,6 +393,30 @@ def handle (args : List String) : String :=
       let spec : Str := [91] ++ (List.intercalate [44, 32] (xs.map fun x => showInt false 10 x.val)) ++ [93]
       two ("ok " ++ renderStr (fmtIntList xs)) ("ok " ++ renderStr spec)
     | none => "bad-op"
+  | ["showdict1", n] =>
+    match parseNInt n with
+    | some x =>
+      let spec : Str := [123, 34, 107, 34, 58, 32] ++ showInt false 10 x.val ++ [125]
+      two ("ok " ++ renderStr (fmtDict1 [107] x)) ("ok " ++ renderStr spec)
+    | none => "bad-op"
+  | ["fmtmulti", pre, slots] =>
+    -- slot = <base>,<align>,<pad>,<len>,<rep:int>,<hex of the literal text that follows or ->
+    let parseSlot (t : String) : Option (Flags × NInt × Str) :=
+      match t.splitOn "," with
+      | [b, al, pad, len, n, lit] => do
+        let base ← parseBase b
+        let x ← parseNInt n
+        let p ← pad.toNat?
+        let l ← len.toNat?
+        let litS ← parseStr lit
+        let align := if al = "l" then FmtAlign.left else if al = "c" then FmtAlign.center else FmtAlign.right
+        pure ({ base := base, pad := p, padLength := l, align := align }, x, litS)
+      | _ => none
+    match parseStr pre, (slots.splitOn ";").mapM parseSlot with
+    | some preS, some sl =>
+      let spec : Str := preS ++ sl.flatMap fun (fl, x, lit) => padTo fl.align fl.pad fl.padLength (showFmt fl.base x.val) ++ lit
+      two ("ok " ++ renderStr (preS ++ fmtSlots sl)) ("ok " ++ renderStr spec)
+    | _, _ => "bad-op"
   | ["int_rt", n] =>
     match parseNInt n with
     | some x => two (outS renderInt (intOfStr (showNInt x))) ("ok " ++ renderInt x.val)
